@@ -90,6 +90,13 @@ claimed = {
          "the store wrapper returns min(requested, MaxQosAllowed) or 0x80 with an error. processSubscribe is under a TRUSTED contract (three nested loops whose freshly allocated byte arrays the generator's loop havoc cannot frame; DESIGN.md §10): "
          "a partial check of it found that a rejected filter made the request vanish without SUBACK - fixed - but 'one SUBACK, codes in request order, subscription effective before the SUBACK' is not machine-checked."),
    design='DESIGN.md §4 C07', technique='ghost-log contracts and call-site obligations over go/ssa, z3/cvc5 (govc); SUBSCRIBE handler trusted'),
+ 'C11': dict(level='proof',
+   text=("Contract-based deductive proof of handleConnection against ghost logs of the CONNACKs written to the connection, of authenticator calls, of started services, of Close calls and of the session store (core; what the accepted connection's goroutines do afterwards is the other properties). "
+         "For every first packet: a CONNECT refused while decoding with a CONNACK code gets exactly one CONNACK with exactly that code and SessionPresent=0, any other unreadable first packet gets none; rejected credentials get exactly one CONNACK with code 4; an accepted CONNECT gets exactly one CONNACK with code 0 after the session was obtained and before the service is started; "
+         "on every refusal no service is created or started and the session store is untouched (the authenticator is consulted before any session access); every error return closes the connection (deferred function, verified). "
+         "ConnectMessage.Decode maps an unsupported protocol level to code 1 and an unacceptable client identifier to code 2 and produces no other code (C03/C04 contracts, part of this check). "
+         "Assumed: reading the CONNECT from the socket (getConnectMessage), writing the CONNACK bytes (writeMessage), the identifier syntax check (a regular expression) and service.start are trusted contracts pinned to their current bodies; start is assumed not to fail."),
+   design='DESIGN.md §4 C11', technique='ghost-log contracts over go/ssa incl. the deferred closure, z3/cvc5 (govc)'),
  'C04': dict(level='proof',
    text=("Contract-based deductive proof: every index, slice (also against len, not only cap: 'strictslice'), nil, conversion and overflow obligation in every Decode path is generated with no annotation and discharged; "
          "contracts add 0<=n<=len(src), every returned field lies within src[:n], loop variants (termination), and acceptance of every well-formed packet (for SUBSCRIBE/UNSUBSCRIBE against a caller-chosen ghost entry chain). Unbounded in input length and topic count."),
